@@ -190,6 +190,22 @@ def run(ctx, rep):
     for gfn in local_reach:
         removes += [(gfn, c) for c in gfn.calls_to(REMOVE)]
     rep.floor("C20.remove_file-sites", len(removes), 1)
+    # the entries to delete are *files*: a directory whose name ends in .mmm must not reach remove_file (it fails there with EISDIR, the `?`
+    # ends the walk and the bytecode files behind it stay - `exactly the files` is broken without anything having been deleted wrongly)
+    for gfn, c in removes:
+        kinds = [x for x in gfn.calls() if mir.short(x.callee()).split("::")[-1] in ("is_dir", "is_file") and "FileType" in x.callee() + "".join(x.names)]
+        if not kinds:
+            rep.ob("C20.files-only", "remove_file is reached only for entries that are not directories", "violated",
+                   "no file-type test on the way to the deletion: a directory named `pkg.mmm` aborts the walk (EISDIR) and the .mmm files after it are left",
+                   c.span, fn=gfn.path, key="C20.files-only|%s" % mir.short(gfn.path))
+            continue
+        verdicts = []
+        for x in kinds:
+            want = mir.short(x.callee()).endswith("is_file")
+            v, info = rules.guarded_by_bool(gfn, [c.bb], [x.dst["l"]], want=want)
+            verdicts.append(v)
+        rep.ob("C20.files-only", "remove_file is reached only for entries that are not directories", "ok" if "ok" in verdicts else ("undecided" if "undecided" in verdicts else "violated"),
+               "", c.span, fn=gfn.path, key="C20.files-only|%s" % mir.short(gfn.path))
     for gfn, c in removes:
         # candidate guards: bool switches on the way whose meaning is an extension test
         meanings = []
